@@ -52,6 +52,16 @@ def check(ctx):
     workloads = [dict(kind='PSO', space='search', n_agents=6, n_vars=c_['n_vars'], n_dims=1, n_iter=2, box='wide',
                       lb=[-7.25] * c_['n_vars'], ub=[9.5] * c_['n_vars'], objective='sphere', rettype='py', hyper={}, adv=0.0,
                       hook='observer', store_best_only=False, seed=11) for c_ in cfgs[:1]] + workloads
+    # unit-box (hypercomplex) tasks whose optimizer uses the agents' own bounds, after a task on a search space of the
+    # same number of variables with another box: always across processes (state cached per size shows only there)
+    nx = 0
+    for c in chosen:
+        if c['space'] == 'hyper' and c['kind'] in ('HS', 'IHS', 'SA', 'ABC', 'BHA', 'BA', 'CS', 'FPA') and nx < (3 if ctx['tier'] == 'quick' else 12):
+            c['xproc'] = True
+            nx += 1
+    if nx == 0:
+        for c in [c for c in cfgs if c['space'] == 'hyper' and c['kind'] in ('HS', 'SA', 'ABC', 'CS')][:2]:
+            chosen.append(dict(c, adv=0.0, hook='observer', xproc=True))
     for n, c in enumerate(chosen):
         rp = dict(how='twice', cfg=c)
         # the preceding workload: the same kind of task (same shapes, so freed memory is re-used) with another
@@ -65,7 +75,10 @@ def check(ctx):
             other_hp['hyper'] = dict(other_hp['hyper'], beta=1.9)
         if c['space'] != 'hyper':
             same_shape.update(lb=[-7.25] * c['n_vars'], ub=[9.5] * c['n_vars'], box='wide')
-        wl = [other_hp, same_shape] + workloads[:2]
+        other_space = dict(kind='HC', space='search', n_agents=3, n_vars=c['n_vars'], n_dims=1, n_iter=1, box='wide',
+                           lb=[-7.25] * c['n_vars'], ub=[9.5] * c['n_vars'], objective='sphere', rettype='py', hyper={}, adv=0.0,
+                           hook='observer', store_best_only=False, seed=13)
+        wl = [other_hp, same_shape, other_space] + workloads[:2]
         rp['workload'] = wl
         if n < n_cross or c['objective'] == 'barrier' or c.get('xproc'):
             a = child(c, [], 1)
